@@ -267,7 +267,7 @@ pub async fn read_http_unsized_body_to_file(
     let mut file = async_fs::File::create(temp_file.path())
         .await
         .map_err(HttpError::error_saving_file)?;
-    let len = match copy_async(AsyncReadExt::take(reader, max_len + 1), &mut file).await {
+    let len = match copy_async(AsyncReadExt::take(reader, max_len.saturating_add(1)), &mut file).await {
         CopyResult::Ok(len) => len,
         CopyResult::ReaderErr(..) => return Err(HttpError::Truncated),
         CopyResult::WriterErr(e) => return Err(HttpError::error_saving_file(e)),
